@@ -355,6 +355,11 @@ class Interp:
             if gv is not None:
                 return [(p, gv)]
             return [(p, ('opaque', n.id))]
+        if isinstance(n, ast.Lambda):
+            a_ = n.args
+            if a_.vararg or a_.kwarg or a_.kwonlyargs or a_.defaults or any(isinstance(x, (ast.Yield, ast.YieldFrom, ast.NamedExpr)) for x in ast.walk(n.body)):
+                raise Unsupported('lambda at %s' % s.loc(n))
+            return [(p, ('lambdaf', n))]
         if isinstance(n, ast.Attribute):
             out = []
             for q, base in s.ev(n.value, p):
@@ -518,6 +523,8 @@ class Interp:
             return ('tuple', [LIN(C(v)) for v in s.class_tables[n.attr]])
         if base[0] == 'validator':
             return ('validator', (base[1] + '.' if len(base) > 1 and base[1] else '') + n.attr)
+        if base[0] == 'source' and n.attr == 'read':
+            return ('srcread',)                     # the bound read method of the data source (kept in a local: read = source.read)
         return ('opaque', ast.unparse(n))
 
     def binop(s, p, n, a, b):
@@ -649,8 +656,31 @@ class Interp:
         if isinstance(f, ast.Name):
             if f.id in p.locs and p.locs[f.id][0] in ('method', 'validator'):
                 return s.call_value(n, p, p.locs[f.id])       # a bound method / the validator held in a local
+            if f.id in p.locs and p.locs[f.id][0] == 'lambdaf':
+                # a small lambda held in a local (an entry of a table of checks): its body evaluated with the arguments bound, over the
+                # locals of the caller (closure)
+                lam = p.locs[f.id][1]
+                params_ = [x.arg for x in lam.args.posonlyargs + lam.args.args]
+                if n.keywords or len(n.args) != len(params_):
+                    raise Unsupported('call of a lambda with other than its positional arguments at %s' % s.loc(n))
+                out = []
+                for q, vals in s.evargs(n.args, p):
+                    saved = q.locs
+                    q.locs = dict(saved)
+                    q.locs.update(dict(zip(params_, vals)))
+                    res_ = s.ev(lam.body, q)
+                    for r, v in res_:
+                        r.locs = dict(saved)
+                        out.append((r, v))
+                return out
+            if f.id in p.locs and p.locs[f.id][0] == 'srcread':
+                if n.args or n.keywords:
+                    raise Unsupported('read with arguments at %s' % s.loc(n))
+                return s.do_read(n, p)
             if f.id in p.locs and p.locs[f.id][0] == 'pkgfunc':
                 return s.inline_function(n, p, p.locs[f.id][1], p.locs[f.id][2])
+            if f.id in p.locs and p.locs[f.id][0] == 'localfn':
+                return s.inline(n, p, f.id, m=p.locs[f.id][1], home=s.cur_mod, free=True, closure=True)
             if f.id not in p.locs:
                 g = s.glob(s.cur_mod, f.id)
                 if g and g[0] == 'func':
@@ -886,7 +916,7 @@ class Interp:
         """inline a module-level helper function of the package (static: no self)"""
         return s.inline(n, p, fn.name, m=hoist_walrus(fn), home=mod, free=True)
 
-    def inline(s, n, p, name, m=None, home=None, free=False):
+    def inline(s, n, p, name, m=None, home=None, free=False, closure=False):
         """inline a method of the analysed class (or, free=True, a helper function); -> list of (path, return value)"""
         if m is None:
             m = s.methods[name]
@@ -920,7 +950,7 @@ class Interp:
                         nxt.append((r2, d2))
                 kwcur = nxt
             for r, kw in kwcur:
-                newlocs = {}
+                newlocs = dict(r.locs) if closure else {}          # a local helper sees the locals of the activation that defined it
                 if first is not None:
                     newlocs[first] = ('class',) if 'classmethod' in decos else ('opaque', 'self')
                 dcur = [(r, newlocs)]
@@ -1203,6 +1233,11 @@ class Interp:
             raise Unsupported('assignment target %s at %s' % (ast.unparse(tgt), s.loc(node)))
 
     def stmt(s, st, p):
+        if isinstance(st, ast.FunctionDef) and not st.decorator_list and not st.args.vararg and not st.args.kwarg \
+                and not any(isinstance(x, (ast.Yield, ast.YieldFrom, ast.Nonlocal, ast.Global)) for x in ast.walk(st)):
+            # a local helper function: kept as a closure over the locals of this activation (it may read them; what it assigns is its own)
+            p.locs[st.name] = ('localfn', hoist_walrus(st))
+            return [(p, None)]
         if isinstance(st, ast.Expr):
             v = st.value
             if isinstance(v, ast.Constant):
@@ -1269,8 +1304,50 @@ class Interp:
                 else:
                     out.append((q, ('return', val)))
             return out
+        if isinstance(st, ast.For) and not st.orelse:
+            # `for x in <tuple / list whose elements are known>`: unrolled (tables of checks in the constructor, tuples of constants)
+            out = []
+            for q, seq in s.ev(st.iter, p):
+                if seq[0] != 'tuple' or len(seq[1]) > 12:
+                    raise Unsupported('For at %s: %s' % (s.loc(st), ast.unparse(st)[:70]))
+                cur = [(q, None)]
+                for elem in seq[1]:
+                    nxt = []
+                    for r, sig in cur:
+                        if sig is not None:
+                            nxt.append((r, sig))
+                            continue
+                        s.assign(st.target, elem, r, st)
+                        for r2, sig2 in s.block(st.body, r):
+                            if sig2 is not None and sig2[0] == 'continue':
+                                sig2 = None
+                            nxt.append((r2, sig2))
+                    cur = nxt
+                for r, sig in cur:
+                    if sig is not None and sig[0] == 'break':
+                        sig = None
+                    out.append((r, sig))
+            return out
         if isinstance(st, ast.Raise):
             name = _name_of_exc(st.exc)
+            # raise helper(...): the exception is what the helper returns (a local function / a method / a package function that builds it)
+            ex = st.exc
+            if isinstance(ex, ast.Call):
+                fnode = None
+                if isinstance(ex.func, ast.Name) and ex.func.id in p.locs and p.locs[ex.func.id][0] == 'localfn':
+                    fnode = p.locs[ex.func.id][1]
+                elif isinstance(ex.func, ast.Name) and ex.func.id not in p.locs:
+                    g_ = s.glob(s.cur_mod, ex.func.id)
+                    fnode = g_[2] if g_ and g_[0] == 'func' else None
+                elif isinstance(ex.func, ast.Attribute) and isinstance(ex.func.value, ast.Name) and ex.func.value.id in ('self', s.cls.name) and ex.func.attr in s.methods:
+                    fnode = s.methods[ex.func.attr]
+                if fnode is not None:
+                    rets = [r_ for r_ in ast.walk(fnode) if isinstance(r_, ast.Return) and r_.value is not None]
+                    names = {_name_of_exc(r_.value) for r_ in rets}
+                    if len(names) == 1 and all(isinstance(r_.value, ast.Call) for r_ in rets):
+                        name = names.pop()
+                    else:
+                        raise Unsupported('raise of the result of %s at %s' % (ast.unparse(ex.func), s.loc(st)))
             p.events.append(('RAISE', dict(exc=name, where=s.loc(st))))
             return [(p, ('raise', name))]
         if isinstance(st, ast.Break):
